@@ -446,6 +446,8 @@ def run_config(contract, cfg, facets="VCSTRN", prime=None, tier="quick", max_pat
                 if not applies:
                     res["history_na"] = True
                     break
+            if hasattr(contract, "begin_call"):
+                contract.begin_call(c)
             c.entry = c.snapshot()
             start = len(g.trace)
             opsnap = _snapshot_operands(c, args, kwargs)
@@ -796,7 +798,8 @@ def _snapshot_state(w, opsnap):
                     if not a.startswith("__"):
                         d["%s.%s" % (k, a)] = (x, _shallow(x))
         mods[name] = d
-    attrs = [(o, frozenset(vars(o))) for (o, _v, _l, _m) in opsnap if hasattr(o, "__dict__")]
+    attrs = [(o, {k: (v, _shallow(v)) for k, v in vars(o).items() if k not in ("value", "lc")})
+             for (o, _v, _l, _m) in opsnap if hasattr(o, "__dict__")]
     return mods, attrs
 
 
@@ -840,12 +843,22 @@ def _hidden_writes(w, snap, assigns):
         for k in before:
             if k not in now and not allowed("%s:%s" % (name, k)):
                 out.append("%s:%s (deleted)" % (name, k))
-    for o, keys in attrs:
-        extra = frozenset(vars(o)) - keys
-        for a in sorted(extra):
+    for o, before in attrs:
+        now = vars(o)
+        for a in sorted(now):
+            if a in ("value", "lc"):
+                continue              # F.operands_not_mutated speaks about these two
             tag = "%s.%s" % (type(o).__name__, a)
-            if not allowed(tag):
-                out.append(tag + " (new attribute on an operand)")
+            if a not in before:
+                if not allowed(tag):
+                    out.append(tag + " (new attribute on an operand)")
+            else:
+                v0, sh0 = before[a]
+                v = now[a]
+                changed = (v is not v0 and not (type(v) is type(v0) and isinstance(v, (int, str, bool, type(None)))
+                                                and not isinstance(v, sym.SymInt) and v == v0)) or (sh0 is not None and _shallow(v) != sh0)
+                if changed and not allowed(tag):
+                    out.append(tag + " (attribute of an operand re-assigned)")
     return out
 
 
